@@ -10,8 +10,11 @@ package tempo
 // [FromNS, ToNS] whatever zone the process runs in: the lower bound is not later
 // than the UTC day of the window start, the upper bound not earlier than the UTC
 // day of the window end.
-//@ func (*SQLIndexQuery).String [C13]
+// The tag name and the tag value of a search come from the request: both reach the
+// statement only as escaped string literals (a StringVal), never as raw SQL text.
+//@ func (*SQLIndexQuery).String [C10,C13]
 //@   flag checks=-index,-assert
+//@   at sql_select.Eq tag-name-and-value-are-escaped-literals: typeis(arg0, "*sql.RawObject") && (unbox(arg0, "*sql.RawObject").val == "key" || unbox(arg0, "*sql.RawObject").val == "val") ==> typeis(arg1, "*sql.StringVal")
 //@   at sql_select.Ge lower-date-covers-window-start: typeis(arg0, "*sql.RawObject") && unbox(arg0, "*sql.RawObject").val == "date" ==> fmtDay <= fdiv(s.FromNS, 86400000000000)
 //@   at sql_select.Le upper-date-covers-window-end: typeis(arg0, "*sql.RawObject") && unbox(arg0, "*sql.RawObject").val == "date" ==> fmtDay >= fdiv(s.ToNS, 86400000000000)
 //@   replay:
